@@ -380,8 +380,8 @@ LAYOUTS = [(lay, ro, dt) for lay in ("C", "F", "strided") for ro in (False, True
 CASES = {"quick": len(NAMES) * 48, "thorough": len(NAMES) * 600}
 FLOOR = {"quick": len(NAMES) * 40, "thorough": len(NAMES) * 500}
 FLOOR_COUNTERS = {
-    "quick": {"purity_calls": 2000, "write_protected_calls": 900, "refits_compared": 1200, "param_guards": 1500, "repeat_pairs": 1500, "arrays_snapshotted": 6000},
-    "thorough": {"purity_calls": 25000, "write_protected_calls": 11000, "refits_compared": 15000, "param_guards": 19000, "repeat_pairs": 19000, "arrays_snapshotted": 75000},
+    "quick": {"purity_calls": 2000, "write_protected_calls": 900, "refits_compared": 1200, "param_guards": 1500, "repeat_pairs": 1500, "arrays_snapshotted": 6000, "guarded_public_calls": 20000},
+    "thorough": {"purity_calls": 25000, "write_protected_calls": 11000, "refits_compared": 15000, "param_guards": 19000, "repeat_pairs": 19000, "arrays_snapshotted": 75000, "guarded_public_calls": 250000},
 }
 RULE = (
     f"case = one of {len(NAMES)} registry entries (every public estimator incl. constructor arguments, the 8 reconstruction "
@@ -495,9 +495,13 @@ def run(case, j):
     Av = _variant(A, lay, ro, dt)
     before = rt.snapshot(Av)
     j.note("arrays_snapshotted", len(before))
+    guard = rt.PurityGuard()
     try:
-        _run_all(sc, Av)
+        with guard:  # every public call of the chain is guarded, so intermediates handed on by the caller are covered too
+            _run_all(sc, Av)
         j.note("purity_calls")
+        j.note("guarded_public_calls", guard.calls)
+        j.ok("no public call of the chain modified one of its own arguments (incl. intermediates the caller hands on)", not guard.violations, guard.violations[:3])
         if ro:
             j.note("write_protected_calls")
     except Exception as e:
